@@ -109,6 +109,9 @@ func (u *Universe) ManMediaType(i int) string {
 	return MTOpaque
 }
 
+// MTBlobAlt is a second blob media type (in-process registries keep what PushBlob was given).
+const MTBlobAlt = "application/vnd.verif.layer"
+
 // MTOther is the alternate opaque media type used to re-type opaque manifests.
 const MTOther = "application/vnd.verif.other+json"
 
@@ -329,6 +332,9 @@ type Env struct {
 	Reg     ociregistry.Interface
 	Ctx     context.Context
 	Writers map[int]*Writer
+	// KeepCommitted keeps a writer in its slot after a successful commit (in-process
+	// registries let a committed session be written to and committed again).
+	KeepCommitted bool
 	// MaxList bounds how many items a listing consumer accepts before it
 	// declines (a hung or looping iterator must not hang the check).
 	MaxList int
@@ -395,6 +401,8 @@ func (e *Env) Exec(op Op) (o Out) {
 			d.Size--
 		case 4:
 			d.MediaType = ""
+		case 5:
+			d.MediaType = MTBlobAlt // truthful push under another blob media type
 		}
 		got, err := reg.PushBlob(ctx, e.repo(op.R), d, bytes.NewReader(data))
 		o.setErr(err)
@@ -544,7 +552,7 @@ func (e *Env) Exec(op Op) (o Out) {
 		d, err := w.W.Commit(dg)
 		o.setErr(err)
 		o.Desc = liteDesc(d)
-		if err == nil {
+		if err == nil && !e.KeepCommitted {
 			delete(e.Writers, op.W)
 		}
 	case "upCancel":
